@@ -38,6 +38,7 @@ THEOREMS = [
     "C09_same_meaning",
     "C09_fill_complex_refused",
     "C09_history_wf",
+    "C09_history_trees",
     "C09_history",
     "C09_load_aligned",
     "C09_load_redundant",
@@ -45,6 +46,7 @@ THEOREMS = [
     "C09_imp_data_aligned",
     "C09_imp_refused",
     "C09_imp_data_once",
+    "C09_imp_shared_tree_refuted",
 ]
 
 CLASSES = ci.CLASSES
@@ -285,7 +287,8 @@ def model_cell(c):
 
 def model_state_json(s):
     return {"cells": [model_cell(c) for c in s["cells"]], "mode": [_pc(m) for m in s["mode"]], "flags": s["flags"],
-            "vol_calc": s["vol_calc"], "data_inputs": s["data_inputs"]}
+            "vol_calc": s["vol_calc"], "data_inputs": s["data_inputs"],
+            "real_tree": [[_pc(p), t] for p, t in s.get("real_tree", [])]}
 
 
 def model_op(op, pre):
@@ -346,6 +349,15 @@ def canon_state(s, model):
             ntr = c["ntr_raw"]
         cells.append((c["number"], tuple(imp), _q(c["vol"]), c["u"], ntr, c["lat"], c["fill"], c["fill_complex"], c["fill_multi"]))
     return (tuple(cells), tuple(s["flags"]), s["vol_calc"])
+
+
+def tree_partition(s, model):
+    """identity of the data-block importance trees as a partition of the particles (which particles share ONE tree
+    object); the order of `_real_tree` and of newly made trees depends on set iteration, a partition does not"""
+    classes = {}
+    for p, t in s.get("real_tree", []):
+        classes.setdefault(t, []).append(p if model else _pc(p))
+    return tuple(sorted(tuple(sorted(c)) for c in classes.values()))
 
 
 def _q(v):
@@ -553,8 +565,11 @@ def compare_case(case, ri, dens, rm, nsteps):
     if rm is None or "steps" not in rm:
         return (0, f"model driver: {rm}")
     k = 0
+    trees = True  # tree identity is compared until a write raises (what an error leaves behind is not modelled)
     for j in range(nsteps):
         op, st, sm = case["ops"][j], ri["steps"][j], rm["steps"][j]
+        if op[0] == "write" and st["out"] != "ok":
+            trees = False
         if op[0] == "write":
             den = None
             if "text" in st:
@@ -574,12 +589,18 @@ def compare_case(case, ri, dens, rm, nsteps):
             d = same_cards(cards_of_den(den), cards_of_model(sm["write"]), st["api"])
             if d:
                 return (j, "written cards differ: " + d)
+            if trees and "state_after" in st and "state" in sm:
+                a, b = tree_partition(st["state_after"], False), tree_partition(sm["state"], True)
+                if a != b:
+                    return (j, f"identity of the data-block importance trees after the write differs (particles sharing one tree object): impl {a} model {b}")
         else:
             if sm.get("err") is not None:
                 return (j, f"operation {op[0]} accepted by the code, model raises {sm['err']}")
             a, b = canon_state(st["state"], False), canon_state(sm["state"], True)
             if a != b:
                 return (j, f"state after {op[0]} differs: impl {a} model {b}")
+            if trees and tree_partition(st["state"], False) != tree_partition(sm["state"], True):
+                return (j, f"identity of the data-block importance trees after {op[0]} differs: impl {tree_partition(st['state'], False)} model {tree_partition(sm['state'], True)}")
     return None
 
 
